@@ -1,7 +1,31 @@
 """Exact bodies of the glue that other models rely on without restating it line by line: how potable picks the species list and
 calls the actions, how a tabulation is opened and written (C17: one buffer, one write), the write() / open_fp() of every
 tabulation class.  Any change here breaks an obligation (fail closed); the violation search then decides."""
-from py2coq import assert_body
+import ast
+from py2coq import assert_body, load_function, strip_docstring, Refuse
+
+def assert_single_write(repo, relfile, qualname, param, depth=0):
+    """C17's model of a writer is "all evaluations, then ONE write of the whole table" (lib/Effects.v atomic_events).  Structurally:
+    the caller's file object `param` is used exactly once in the function, by the last top-level statement, which is
+    `param.write(<expression>)` - so nothing reaches the file before every function value has been computed, whatever the size
+    of the table (a behavioural run on small grids cannot see a flush that depends on the volume).  Fail closed otherwise."""
+    fn = load_function(repo, relfile, qualname)
+    body = strip_docstring(fn.body)
+    uses = [n for n in ast.walk(ast.Module(body=body, type_ignores=[])) if isinstance(n, ast.Name) and n.id == param]
+    last = body[-1] if body else None
+    def is_write(st):
+        return (isinstance(st, ast.Expr) and isinstance(st.value, ast.Call) and isinstance(st.value.func, ast.Attribute)
+                and st.value.func.attr == 'write' and isinstance(st.value.func.value, ast.Name) and st.value.func.value.id == param
+                and len(st.value.args) == 1 and not st.value.keywords)
+    ok = len(uses) == 1 and param in [a.arg for a in fn.args.args + fn.args.kwonlyargs] and is_write(last)
+    if (not ok and len(uses) == 1 and isinstance(last, ast.Expr) and isinstance(last.value, ast.Call) and isinstance(last.value.func, ast.Name)
+            and not last.value.keywords and sum(1 for a in last.value.args if isinstance(a, ast.Name) and a.id == param) == 1 and depth < 3):
+        # the whole job is handed to one helper as the last statement: the helper must have the shape, for the parameter that receives it
+        i = [k for k, a in enumerate(last.value.args) if isinstance(a, ast.Name) and a.id == param][0]
+        helper = load_function(repo, relfile, last.value.func.id)
+        return assert_single_write(repo, relfile, last.value.func.id, helper.args.args[i].arg, depth + 1)
+    if not ok:
+        raise Refuse('%s:%s no longer has the shape "build everything, then %s.write(text) once as the last statement" (%d uses of %s)' % (relfile, qualname, param, len(uses), param))
 
 def generate(repo):
     assert_body(repo, 'atsim/potentials/tools/potable/__init__.py', '_do_tabulation', "logger = logging.getLogger(__name__).getChild('main')\nspecies_list = None\nexclude_flag = False\nif not args.include_species is None:\n    species_list = args.include_species\nelif not args.exclude_species is None:\n    species_list = args.exclude_species\n    exclude_flag = True\ncp = _make_config_parser(args.config_file, args.override_item, args.add_item, args.remove_item, species_list, exclude_flag)\nif args.list_items:\n    _query_actions.action_list_items(cp)\n    sys.exit(0)\nelif args.list_item_labels:\n    _query_actions.action_list_item_labels(cp)\n    sys.exit(0)\nelif args.item_value:\n    _query_actions.action_item_value(cp, args.item_value[0])\n    sys.exit(0)\nif not args.out_filename:\n    p.error('Path of OUTPUT_FILE for tabulation not specified.')\n_actions.action_tabulate(cp, args.out_filename)\nsys.exit(0)")
@@ -20,4 +44,10 @@ def generate(repo):
     assert_body(repo, 'atsim/potentials/eam_tabulation.py', 'Excel_EAMTabulation.write', 'wb = self.workbook\nself._inner_tabulation.write(fp)')
     assert_body(repo, 'atsim/potentials/eam_tabulation.py', 'Excel_EAMTabulation.open_fp', 'return Excel_PairTabulation.open_fp(filename)')
     assert_body(repo, 'atsim/potentials/eam_tabulation.py', 'ADP_EAMTabulation.write', 'from io import StringIO\nworkout = StringIO()\nwriteSetFL(self.nrho, self.drho, self.nr, self.dr, self.eam_potentials, self.potentials, out=workout)\nself._write_dipole(workout)\nself._write_quadrupole(workout)\nfp.write(workout.getvalue())')
+    # one buffer, one write: every writer function that receives the caller's file object
+    for relfile, qualname in [('atsim/potentials/_lammps_writeTABLE.py', 'writePotentials'), ('atsim/potentials/_dlpoly_writeTABLE.py', 'writePotentials'),
+                              ('atsim/potentials/_lammpsWriteEAM.py', 'writeSetFL'), ('atsim/potentials/_lammpsWriteEAM.py', 'writeSetFLFinnisSinclair'),
+                              ('atsim/potentials/_lammpsWriteEAM.py', 'writeFuncFL'),
+                              ('atsim/potentials/_dlpoly_writeTABEAM.py', 'writeTABEAM'), ('atsim/potentials/_dlpoly_writeTABEAM.py', 'writeTABEAMFinnisSinclair')]:
+        assert_single_write(repo, relfile, qualname, 'out')
     return {}
